@@ -148,4 +148,23 @@ BoundSound == \A k \in 1..3 : (k # 2 \/ PlainLine(s)) => EmphB(Ctx(s, k)) = res[
 WellFormed == \A k \in 1..3 : Laminar(res[k]) /\ Delimited(Ctx(s, k), res[k])
 
 Emit == PrintT(ToJson([s |-> s, p |-> PlainLine(s), r |-> res]))
+
+(* Long paragraphs: hundreds of delimiter runs in one paragraph (the delimiter stack is only processed at the end of the paragraph
+   or at a link, so every run scanned so far is on it). The generator builds a short unit u over the alphabet; the strings are
+   frame(u repeated k times) for k in Reps and three frames: bare; inside an outer emphasis "*a " ... " a*"; followed by
+   "**a** _a_" (constructs that must still be recognised after everything before them). *)
+CONSTANTS Reps
+RECURSIVE RepSeq(_, _)
+RepSeq(u, k) == IF k = 0 THEN <<>> ELSE u \o RepSeq(u, k - 1)
+Frame(f, u, k) == CASE f = 1 -> RepSeq(u, k)
+                    [] f = 2 -> <<"*", "a", " ">> \o RepSeq(u, k) \o <<" ", "a", "*">>
+                    [] f = 3 -> RepSeq(u, k) \o <<" ", "*", "*", "a", "*", "*", " ", "_", "a", "_">>
+LongNext == /\ Len(s) < MaxLen
+            /\ \E c \in Alphabet : s' = Append(s, c)
+            /\ UNCHANGED res
+HasDelim(u) == \E i \in 1..Len(u) : IsDelim(u[i])
+LongEmit == (s # <<>> /\ HasDelim(s)) =>
+              \A k \in Reps, f \in 1..3 :
+                 LET t == Frame(f, s, k) IN PrintT(ToJson([s |-> t, p |-> PlainLine(t), r |-> Results(t)]))
+LongBoundSound == (s # <<>> /\ HasDelim(s)) => \A k \in Reps : EmphB(Ctx(Frame(2, s, k), 1)) = Emph(Ctx(Frame(2, s, k), 1))
 =============================================================================
